@@ -32,7 +32,7 @@ LETTERS = 'MmZzLlHhVvCcSsQqTtAa'
 COORDS = [1.0, -2.0, 3.5, 0.25, -0.75, 10.0, 7.5, -4.0, 0.1, 2.3, -6.7, 12.5, 100.0, -0.001,
           5e-07, 31.0, -17.25, 0.6, 44.0, -9.5, 8.125, 1e-05, -3.3, 60.0, 0.2, 19.0, -28.0, 2.75,
           1.5e+16, -0.3, 6.0, 13.0, 15.5, -11.0, 0.7, 21.0, 5.5, -1.25, 9.0, 0.9]
-RADII = [(2.0, 0.5), (25.0, 30.0), (0.001, 0.002), (0.0, 3.0), (40.0, 20.0), (3.0, 0.0), (7.0, 7.0)]
+RADII = [(2.0, 0.5), (1e-09, 2e-09), (25.0, 30.0), (0.001, 0.002), (0.0, 3.0), (40.0, 20.0), (3.0, 0.0), (7.0, 7.0)]
 ROTS = [0.0, 30.0, -45.0, 90.0, 400.0, 12.5]
 FLAGS = [(0, 1), (1, 0), (1, 1), (0, 0)]
 
@@ -196,6 +196,23 @@ def check_program(prog, rot, styles, acc):
                       {'program': sub, 'style': style}, observed=c[1],
                       expected=[list(map(core.jz, s[1:])) for s in refsvg.interpret(sub)],
                       detail='d=%r' % refsvg.render(sub, style))
+    # two parses of the same string are independent objects: editing the first result in place
+    # must not change what the string parses to the second time
+    if 'spaced' in parsed and drawing:
+        d0 = parsed['spaced']
+        first = parse_path(d0)
+        for sg in first:
+            sg.start = 12345.5 - 0.25j
+            sg.end = -777.0 + 3j
+            if hasattr(sg, 'control1'):
+                sg.control1 = sg.control2 = 9j
+            if hasattr(sg, 'control'):
+                sg.control = 9j
+        del first[:]
+        c2 = compare(d0, ref)
+        if c2 is not None:
+            acc.violation('second_parse_of_same_string_differs', {'what': c2[0]}, {'program': prog, 'style': 'spaced', 'twice': True},
+                          observed=c2[1], detail='d=%r parsed again after editing the first result in place' % d0)
     # lexically different spellings parse to equal paths
     if len(parsed) > 1:
         items = list(parsed.items())
@@ -253,5 +270,8 @@ def finalize(acc):
 def replay(case):
     acc = core.ReplayAcc()
     prog = [(l, a) for l, a in case['program']]
+    if case.get('twice'):
+        check_program(prog, 0, ['spaced'], acc)
+        return acc.vlist
     check_program(prog, 0, [case['style']] + ([case['other_style']] if 'other_style' in case else []), acc)
     return acc.vlist
